@@ -114,7 +114,7 @@ Definition model_of (c : c08case) : bool :=
   | KParse ftab text r => agree fexpr_eqb (parse_text (sassoc_z ftab) text) r
   | KInt f v text =>
       String.eqb (print_int f v) text
-      && match parse_text (fun _ => 0) text with Ok e => fexpr_eqb (fold e) (FLitI v dec_fmt) || (match f with IF _ RBool => true | _ => false end) | _ => false end
+      && match parse_text (fun _ => 0) text with Ok e => fexpr_eqb (fold e) (FLitI v dec_fmt) | _ => false end
   | KStr s text =>
       String.eqb (print_string s) text
       && match parse_string_literal text with Ok s' => String.eqb s s' | _ => false end
@@ -122,7 +122,7 @@ Definition model_of (c : c08case) : bool :=
       let fd := zassoc_str fdt in
       let p := pr_expr fd e in
       render_agrees w (DSeq (pp fd sup e)) r p
-      && (negb p || rt)
+      && (negb (p && no_odd_nan e) || rt)
       && (negb p ||
           (* the parser specification on the inline layout gives the expected tree *)
           let pf := fun s => sassoc_z (map (fun kv => (let t := snd kv in if has_dot t then t else (t ^^ ".0")%string, fst kv)) fdt) s in
